@@ -109,6 +109,8 @@ def oracle(lines, impl):
         if op == "reset":
             src, hid, readable, protected, dead_ids = {}, {}, {}, set(), set()
             last_mark, created, eff_sweeps, unmarked = {}, {}, [], set()
+        elif op in ("as", "st", "am", "ams") and a == "panic":
+            bad.append((i, f"{op} panicked inside the heap (an internal `expect`/index failed: the intern tables and the slot table disagree)"))
         elif op in ("as", "st"):
             v = t[1]; src[v] = unhex(t[2]); created[v] = i; last_mark.pop(v, None)
             hid[v] = a
